@@ -144,8 +144,7 @@ def single_root(ctx, rule='C07.single-root'):
 
 def _search_role(ctx):
     """the tree search: function returning (bool, Vec<SearchPath>) -- exact-match flag plus the descent stack"""
-    cands = [f for f in ctx.facts.fns if f.kind != 'Closure' and f.locals[0]['ty'].startswith('(bool, std::vec::Vec<') and 'SearchPath' in f.locals[0]['ty']]
-    return cands[0] if len(cands) == 1 else None
+    return ctx.A.get('search-role')
 
 
 def exact_match_used(ctx, rule='C07.exact-match-used'):
@@ -293,6 +292,51 @@ def scan_skips_empty(ctx, rule='C07.scan-skips-empty'):
     return res
 
 
+def position_from_search(ctx, rule='C07.position-from-search'):
+    """the position at which an entry is read, replaced or deleted comes from a tree search made in the same operation: the transaction's overlay changes
+    between operations (inserts shift indices, nodes are materialised), so a position kept from an earlier operation -- a cached last lookup -- addresses
+    another entry.  Judged on the expression tree of the index handed to PageNode::val / Node::delete, with module-private helpers folded in."""
+    import c16
+    res = []
+    F = ctx.facts
+    sr = ctx.A.get('search-role')
+    if sr is None:
+        return [unresolved(rule, 'search role')]
+    n = 0
+    for fn in sorted(F.fns, key=lambda f: f.path):
+        if fn.kind == 'Closure' or not fn.self_adt or last_seg(fn.self_adt) != 'InnerBucket':
+            continue
+        if ctx.A.module_private(fn) and F.callers(fn):
+            continue
+        X = ctx.A.xf(fn)
+        du = None
+        for bb in sorted(X.reachable_blocks()):
+            t = X.term(bb)
+            c = callee_of(t) if t['k'] == 'call' else None
+            if not c or len(t['args']) < 2:
+                continue
+            q = strip_generics(c['path'])
+            if not (q.endswith('PageNode::val') or q.endswith('Node::delete')):
+                continue
+            du = du or ctx.du(X)
+            e = du.sym(t['args'][1])
+            n += 1
+            from_search = c16._tree_has(e, lambda x: x[0] == 'call' and x[1] == sr.path)
+            merged = c16._tree_has(e, lambda x: x[0] == 'phi')
+            if from_search and not merged:
+                res.append(ok(rule, '%s: position used at %s comes from the search made in this call' % (fn.qual, X.loc(bb)), sites=1))
+            else:
+                res.append(bad(rule, '%s | position not from a search made in the same operation' % fn.qual,
+                               '%s %s an entry at %s at a position `%s` that %s: a position remembered from an earlier operation is stale as soon as the transaction '
+                               'inserts, deletes or materialises anything in that leaf' % (fn.qual, 'reads' if q.endswith('val') else 'deletes', X.loc(bb), c16._fmt(e)[:120],
+                                                                                            'can also come from somewhere else than the search' if from_search else 'does not come from a tree search in this call'),
+                               where=X.loc(bb)))
+    f = floor(rule, 'positions handed to PageNode::val / Node::delete in InnerBucket methods', n, 4)
+    if f:
+        res.append(f)
+    return res
+
+
 def run(ctx, tier):
     results = []
     results += overlay_first(ctx)
@@ -302,6 +346,7 @@ def run(ctx, tier):
     results += exact_match_used(ctx)
     results += overlay_registered(ctx)
     results += scan_skips_empty(ctx)
+    results += position_from_search(ctx)
     import c08 as _c08
     results += _c08.seek_reset(ctx, rule='C07.seek-reset')
     results += _c08.bounds_total(ctx, rule='C07.range-bounds-total')
